@@ -67,10 +67,24 @@ pub fn value(c: char, size: usize) -> Val {
 }
 
 fn dirspec(name: &str, k: Kind) -> DirSpec {
+    dirspec_cap(name, k, false)
+}
+
+/// `tight`: one entry per directory, so that maintenance (scripted to fire) is over capacity as
+/// soon as a second file exists
+fn dirspec_cap(name: &str, k: Kind, tight: bool) -> DirSpec {
     match k {
-        Kind::Plain => DirSpec::Plain { dir: name.to_string(), cap: 1 << 30 },
-        Kind::Sharded => DirSpec::Sharded { dir: name.to_string(), shards: 3, cap: 1 << 30 },
+        Kind::Plain => DirSpec::Plain { dir: name.to_string(), cap: if tight { 1 } else { 1 << 30 } },
+        Kind::Sharded => DirSpec::Sharded { dir: name.to_string(), shards: 3, cap: if tight { 3 } else { 1 << 30 } },
     }
+}
+
+/// Tight points: the write cache starts without the key, holds one READ-MARKED bystander per
+/// directory and has room for one entry per directory; maintenance fires on every write. A
+/// maintenance that runs before the insertion has nothing to do; one that runs after it would
+/// evict the entry that was just stored.
+fn is_tight(p: &Point) -> bool {
+    matches!(p.writer, Some((_, Hold::Empty))) && hash_str(&format!("tight{:?}", p)) % 4 == 0
 }
 
 fn level_name(i: usize) -> String {
@@ -467,7 +481,18 @@ pub fn run_point(root: &Path, p: &Point) -> PointResult {
     if let Some((k, _)) = p.writer {
         let d = dirspec("W", k).candidate_dirs(root, &bystander)[0].clone();
         plant_file(&d.join("bystander"), &Val::new("bystander", 9, 9, 17).encode(), 0o444);
-        set_times_ns(&d.join("bystander"), old - 120_000_000_000, old - 5_000_000_000).unwrap();
+        let m = old - 5_000_000_000;
+        set_times_ns(&d.join("bystander"), if is_tight(p) { m + 1 } else { m - 120_000_000_000 }, m).unwrap();
+        if is_tight(p) && k == Kind::Sharded {
+            // every shard gets its read-marked occupant
+            for s in 0..3u64 {
+                let sd = root.join("W").join(crate::shardoracle::dir_name(s));
+                if !sd.join("bystander").exists() {
+                    plant_file(&sd.join(format!("occupant{}", s)), &Val::new(&format!("occupant{}", s), 9, 9, 17).encode(), 0o444);
+                    set_times_ns(&sd.join(format!("occupant{}", s)), m + 1, m).unwrap();
+                }
+            }
+        }
     }
     for (i, (k, h)) in p.readers.iter().enumerate() {
         if *h != Hold::NoDir {
@@ -478,7 +503,7 @@ pub fn run_point(root: &Path, p: &Point) -> PointResult {
     }
     let before = snapshot(root);
     let spec = StackSpec {
-        writer: p.writer.map(|(k, _)| dirspec("W", k)),
+        writer: p.writer.map(|(k, _)| dirspec_cap("W", k, is_tight(p))),
         readers: p.readers.iter().enumerate().map(|(i, (k, _))| dirspec(&level_name(i), *k)).collect(),
         checker: p.checker,
         // a third of the points disable auto_sync: everything but the flush must stay the same
@@ -496,7 +521,7 @@ pub fn run_point(root: &Path, p: &Point) -> PointResult {
     let old_umask = unsafe { libc::umask(p.umask as libc::mode_t) };
     let mut log_entries: Vec<(Vec<u8>, Vec<u8>)> = Vec::new();
     let (res, ev) = traced(&world, || {
-        script_rng(false, 1);
+        script_rng(is_tight(p), 1);
         let h = if p.readonly_api { open_readonly(root, &spec.readers, p.checker) } else { open_stack(root, &spec) };
         let r = exec(root, &h, &op);
         match &h {
